@@ -92,6 +92,7 @@ func NewMuxer(ctx context.Context, w io.Writer, opts ...func(*Muxer)) *Muxer {
 		pmtCC: newWrappingCounter(0b1111),
 
 		esContexts: map[uint32]*esContext{},
+		nextPID:    startPID,
 	}
 
 	m.bufWriter = astikit.NewBitsWriter(astikit.BitsWriterOptions{Writer: &m.buf})
@@ -120,6 +121,10 @@ func (m *Muxer) AddElementaryStream(es PMTElementaryStream) error {
 			}
 		}
 	} else {
+		// Automatic PIDs are unique and outside the PIDs reserved for PSI/SI and null packets
+		for m.pidInUse(m.nextPID) {
+			m.nextPID++
+		}
 		es.ElementaryPID = m.nextPID
 		m.nextPID++
 	}
@@ -131,6 +136,15 @@ func (m *Muxer) AddElementaryStream(es PMTElementaryStream) error {
 	m.pmtBytes.Reset()
 	m.pmtUpdated = true
 	return nil
+}
+
+// pidInUse checks whether a PID can't be assigned automatically
+func (m *Muxer) pidInUse(pid uint16) bool {
+	if pid < startPID || pid == pmtStartPID || pid >= PIDNull {
+		return true
+	}
+	_, ok := m.esContexts[uint32(pid)]
+	return ok
 }
 
 func (m *Muxer) RemoveElementaryStream(pid uint16) error {
